@@ -330,6 +330,28 @@ impl Prop for C12 {
 				}
 			}
 		}
+		// long segments that begin or end with runs of '.' (the byte next to '/' in value: word-at-a-time searches for
+		// '/' that also flag its neighbour), at every alignment, read from both ends
+		if ok {
+			let mut gi = 0usize;
+			'dots: for off in 0..8usize {
+				for l in [18usize, 20, 24, 25, 27, 28, 31, 32, 33, 40, 64, 100] {
+					for k in 1..=5usize {
+						gi += 1;
+						if gi % nshards != shard {
+							continue;
+						}
+						let d = ".".repeat(k);
+						let s = format!("{}/{d}{}/{}{d}/{d}{}{d}/x{d}", "a".repeat(off), gen::filler(l), gen::filler(l), gen::filler(l));
+						let fam = if gi % 2 == 0 { Fam::Uri } else { Fam::Iri };
+						if !f(Case { fam, path: s, schedule: Some(vec![false, true, false, false, true]) }, true) {
+							ok = false;
+							break 'dots;
+						}
+					}
+				}
+			}
+		}
 		// periodic paths ("a/" x k, "abc/" x k, ...) of 8 KiB .. 64 KiB: per-lane counters overflow only when one
 		// lane sees a delimiter in every row of a block
 		if ok {
@@ -351,7 +373,7 @@ impl Prop for C12 {
 			}
 		}
 		if ok {
-			vec!["periodic paths (13 periods x 11 total lengths 4 KiB .. 64 KiB)", "runs of '/' of every length 0..=1100 at every offset 0..8", "all strings <= L1 over {a,/,.} x all schedules", "all strings <= L2 items over {a,/,é,:,%41} x all schedules", "every ucschar scalar value inside / alone as / at the end of a segment"]
+			vec!["long segments beginning / ending with 1-5 dots at every alignment, read from both ends", "periodic paths (13 periods x 11 total lengths 4 KiB .. 64 KiB)", "runs of '/' of every length 0..=1100 at every offset 0..8", "all strings <= L1 over {a,/,.} x all schedules", "all strings <= L2 items over {a,/,é,:,%41} x all schedules", "every ucschar scalar value inside / alone as / at the end of a segment"]
 		} else {
 			vec![]
 		}
